@@ -5,57 +5,65 @@ From Coq Require Import ZArith Lia FinFun.
 Local Open Scope N_scope.
 
 (* ---------------- walking a trace ------------------------------------------------------------ *)
-(* the obligations of trace_ok / names_ok, item by item, carrying "who is who" and the message
-   being handled *)
-Fixpoint walk (strict : bool) (v : conn -> cstatus) (last : option (conn * smsg)) (tr : list item) : Prop :=
+(* the obligations of trace_ok / names_ok, item by item, carrying "who is who", the message
+   being handled and what every named connection has written so far *)
+Definition log_new (v : conn -> cstatus) (i : item) : list (conn * bytes * smsg) :=
+  match i with
+  | TRecv c m => match v c with CNamed n => [(c, n, m)] | _ => [] end
+  | _ => []
+  end.
+
+Fixpoint walk (strict : bool) (v : conn -> cstatus) (last : option (conn * smsg)) (lg : list (conn * bytes * smsg))
+         (tr : list item) : Prop :=
   match tr with
   | [] => True
   | i :: r =>
       match i with
-      | TEmit o s m' => emit_ok strict v last o s m'
+      | TEmit o s m' => emit_ok strict v last lg o s m'
       | TIssue c n => v c = CUnnamed
       | _ => True
-      end /\ walk strict (view_step v i) (last_step last i) r
+      end /\ walk strict (view_step v i) (last_step last i) (lg ++ log_new v i) r
   end.
 
-Lemma walk_app strict : forall a b v l,
-  walk strict v l (a ++ b) <-> walk strict v l a /\ walk strict (fold_left view_step a v) (fold_left last_step a l) b.
+Lemma wrote_from_cons v i r : wrote_from v (i :: r) = log_new v i ++ wrote_from (view_step v i) r.
+Proof. reflexivity. Qed.
+
+Lemma wrote_from_app : forall a b v, wrote_from v (a ++ b) = wrote_from v a ++ wrote_from (fold_left view_step a v) b.
 Proof.
-  induction a as [|i a IH]; intros b v l; cbn [app walk fold_left]; [tauto|]. rewrite IH. tauto.
+  induction a as [|i a IH]; intros b v; [reflexivity|]. cbn [app fold_left]. rewrite !wrote_from_cons, IH, app_assoc. reflexivity.
 Qed.
 
-Lemma walk_at strict : forall pre v l i post,
-  walk strict v l (pre ++ i :: post) ->
+Lemma walk_app strict : forall a b v l lg,
+  walk strict v l lg (a ++ b) <->
+  walk strict v l lg a /\ walk strict (fold_left view_step a v) (fold_left last_step a l) (lg ++ wrote_from v a) b.
+Proof.
+  induction a as [|i a IH]; intros b v l lg; cbn [app walk fold_left].
+  - cbn [wrote_from]. rewrite app_nil_r. tauto.
+  - rewrite IH, wrote_from_cons, app_assoc. tauto.
+Qed.
+
+Lemma walk_at strict : forall pre v l lg i post,
+  walk strict v l lg (pre ++ i :: post) ->
   match i with
-  | TEmit o s m' => emit_ok strict (fold_left view_step pre v) (fold_left last_step pre l) o s m'
+  | TEmit o s m' => emit_ok strict (fold_left view_step pre v) (fold_left last_step pre l) (lg ++ wrote_from v pre) o s m'
   | TIssue c n => fold_left view_step pre v c = CUnnamed
   | _ => True
   end.
 Proof.
-  intros pre v l i post H. apply walk_app in H. destruct H as [_ H]. cbn [walk] in H. tauto.
+  intros pre v l lg i post H. apply walk_app in H. destruct H as [_ H]. cbn [walk] in H. tauto.
 Qed.
-
-Lemma upd_ext v v' c x : (forall k, v k = v' k) -> forall k, upd v c x k = upd v' c x k.
-Proof. intros H k. unfold upd. destruct (k =? c); auto. Qed.
-
-Lemma view_step_ext v v' i : (forall k, v k = v' k) -> forall k, view_step v i k = view_step v' i k.
-Proof. intros H. destruct i; cbn [view_step]; auto using upd_ext. Qed.
-
-Lemma emit_ok_ext strict v v' l o s m : (forall k, v k = v' k) -> emit_ok strict v l o s m -> emit_ok strict v' l o s m.
-Proof. intros H. unfold emit_ok. destruct o; auto. rewrite (H c). auto. Qed.
-
-Lemma walk_ext strict : forall tr v v' l, (forall k, v k = v' k) -> walk strict v l tr -> walk strict v' l tr.
-Proof.
-  induction tr as [|i r IH]; intros v v' l H; cbn [walk]; [tauto|]. intros [A B]. split.
-  - destruct i; auto. + rewrite <- (H c). exact A. + eapply emit_ok_ext; eauto.
-  - eapply IH; [|exact B]. apply view_step_ext. exact H.
-Qed.
-
-Lemma fold_view_ext : forall tr v v', (forall k, v k = v' k) -> forall k, fold_left view_step tr v k = fold_left view_step tr v' k.
-Proof. induction tr as [|i r IH]; intros v v' H; cbn [fold_left]; [exact H|]. apply IH. apply view_step_ext. exact H. Qed.
 
 Lemma issued_app a b : issued (a ++ b) = issued a ++ issued b.
 Proof. unfold issued. apply flat_map_app. Qed.
+
+(* a longer log never hurts *)
+Lemma emit_ok_log strict v l lg lg' o s m :
+  (forall x, In x lg -> In x lg') -> emit_ok strict v l lg o s m -> emit_ok strict v l lg' o s m.
+Proof.
+  intros H. unfold emit_ok. destruct o; auto. destruct s; auto.
+  intros [A B]. split; [exact A|]. destruct (v c); auto. destruct B as [B1 (m0 & B2 & B3)]. split; [exact B1|].
+  exists m0. split; [apply H; exact B2 | exact B3].
+Qed.
 
 (* ---------------- association-list facts ------------------------------------------------------ *)
 Definition cst (o : option (option bytes)) : cstatus :=
@@ -89,57 +97,51 @@ Proof.
 Qed.
 
 (* ---------------- single emissions ------------------------------------------------------------ *)
-Lemma emit_driver strict v last s m' :
-  wf_fields (s_fields m') -> sender_is m' drv_name -> emit_ok strict v last ODriver s m'.
+Definition plain (s : scope) : Prop := match s with SReleased _ => False | _ => True end.
+
+Lemma emit_driver strict v last lg s m' :
+  wf_fields (s_fields m') -> sender_is m' drv_name -> emit_ok strict v last lg ODriver s m'.
 Proof. intros W S. cbn. split; [apply wf_defined; exact W | exact S]. Qed.
 
-Lemma emit_client_named strict v c m n s m' :
-  v c = CNamed n -> wf_fields (s_fields m') -> sender_is m' n -> same_content m m' ->
-  emit_ok strict v (Some (c, m)) (OClient c) s m'.
+Lemma emit_client_named strict v lg c m n s m' :
+  plain s -> v c = CNamed n -> wf_fields (s_fields m') -> sender_is m' n -> same_content m m' ->
+  emit_ok strict v (Some (c, m)) lg (OClient c) s m'.
 Proof.
-  intros V W S C. cbn. split; [apply wf_defined; exact W|]. split; [exists m; split; [reflexivity|exact C]|].
-  rewrite V. exact S.
+  intros P V W S C. cbn. split; [apply wf_defined; exact W|].
+  destruct s; try contradiction; (split; [exists m; split; [reflexivity|exact C]|]); rewrite V; exact S.
 Qed.
 
-Lemma emit_client_unnamed v c m m' :
+Lemma emit_client_unnamed v lg c m m' :
   v c = CUnnamed -> wf_fields (s_fields m') -> sender_is m' not_active -> same_content m m' ->
-  emit_ok false v (Some (c, m)) (OClient c) SMonitors m'.
+  emit_ok false v (Some (c, m)) lg (OClient c) SMonitors m'.
 Proof.
   intros V W S C. cbn. split; [apply wf_defined; exact W|]. split; [exists m; split; [reflexivity|exact C]|].
   rewrite V. split; [reflexivity | exact S].
+Qed.
+
+(* a kept message, when it is finally dispatched: holds for the literal property as well *)
+Lemma emit_released strict v last lg c n m0 m' :
+  v c = CNamed n -> wf_fields (s_fields m') -> sender_is m' n -> In (c, n, m0) lg -> same_content m0 m' ->
+  emit_ok strict v last lg (OClient c) (SReleased c) m'.
+Proof.
+  intros V W S L C. cbn. split; [apply wf_defined; exact W|]. rewrite V. split; [exact S|]. exists m0. auto.
 Qed.
 
 (* ---------------- the environment ------------------------------------------------------------- *)
 Definition dmsg_wf (d : dmsg) : Prop :=
   match d with DTo _ m => wf_fields (s_fields m) | DBcast m => wf_fields (s_fields m) end.
 
-Lemma emit_dmsg_ok strict b d v last :
+Lemma emit_dmsg_ok strict b d v last lg :
   dmsg_wf d ->
-  match emit_dmsg b d with TEmit o s m' => emit_ok strict v last o s m' | _ => False end.
+  match emit_dmsg b d with TEmit o s m' => emit_ok strict v last lg o s m' | _ => False end.
 Proof.
   destruct d as [c m|m]; cbn [dmsg_wf emit_dmsg]; intros W.
   - apply emit_driver; [apply from_driver_wf | apply from_driver_sender]; exact W.
   - apply emit_driver; [apply set_sender_wf; exact W | apply set_sender_is; apply W].
 Qed.
 
-Lemma walk_dmsgs strict b : forall ds v last,
-  Forall dmsg_wf ds ->
-  walk strict v last (map (emit_dmsg b) ds) /\
-  (forall k, fold_left view_step (map (emit_dmsg b) ds) v k = v k) /\
-  fold_left last_step (map (emit_dmsg b) ds) last = last /\
-  issued (map (emit_dmsg b) ds) = [].
-Proof.
-  induction ds as [|d r IH]; intros v last H; cbn [map walk fold_left].
-  - repeat split; auto.
-  - inversion H as [|? ? Hd Hr]; subst.
-    pose proof (emit_dmsg_ok strict b d v last Hd) as E.
-    destruct (emit_dmsg b d) eqn:X; try contradiction.
-    cbn [view_step last_step]. destruct (IH v last Hr) as (A & B & C & D).
-    repeat split; auto.
-Qed.
-
-Lemma error_reply_ok strict b c m e v last :
-  match error_reply b c m e with TEmit o s m' => emit_ok strict v last o s m' | _ => False end.
+Lemma error_reply_ok strict b c m e v last lg :
+  match error_reply b c m e with TEmit o s m' => emit_ok strict v last lg o s m' | _ => False end.
 Proof. unfold error_reply. apply emit_dmsg_ok. exact (new_error_wf m e []). Qed.
 
 (* ---------------- replies built by libdbus itself ----------------------------------------------- *)
@@ -210,28 +212,46 @@ Qed.
 Lemma opt_is_true o s : opt_is o s = true -> o = Some s.
 Proof. destruct o as [x|]; cbn; [|discriminate]. intros H. apply bytes_eqb_eq in H. congruence. Qed.
 
-Lemma emit_local v c m m' :
+Lemma emit_local v lg c m m' :
   str_field m F_DESTINATION = None ->
   (s_type m = 1 \/ str_field m F_INTERFACE = Some peer_iface) ->
   wf_fields (s_fields m') -> has_no_sender m' ->
   get_field (s_fields m') F_REPLY_SERIAL = Some (VNum 117 (s_serial m)) -> (s_type m' = 2 \/ s_type m' = 3) ->
-  emit_ok false v (Some (c, m)) OLocal (SSelf c) m'.
+  emit_ok false v (Some (c, m)) lg OLocal (SSelf c) m'.
 Proof.
   intros D T W S R Ty. cbn. split; [apply wf_defined; exact W|]. split; [exact S|].
   exists c, m. repeat split; assumption.
 Qed.
 
+(* traces that consist of emissions only: who is who, the log and the issued names do not move *)
+Definition emits_ok (v : conn -> cstatus) (last : option (conn * smsg)) (lg : list (conn * bytes * smsg)) (tr : list item) : Prop :=
+  Forall (fun i => match i with TEmit o s m' => emit_ok false v last lg o s m' | _ => False end) tr.
+
+Lemma emits_walk v last lg tr :
+  emits_ok v last lg tr ->
+  walk false v last lg tr /\ (forall k, fold_left view_step tr v k = v k) /\ issued tr = [] /\ wrote_from v tr = [].
+Proof.
+  induction 1 as [|i r Hi Hr IH]; cbn [walk fold_left issued flat_map]; [auto|].
+  destruct i; try contradiction. cbn [view_step last_step app log_new]. rewrite wrote_from_cons. cbn [log_new view_step app].
+  rewrite app_nil_r. tauto.
+Qed.
+
+Lemma emits_dmsgs b v last lg ds : Forall dmsg_wf ds -> emits_ok v last lg (map (emit_dmsg b) ds).
+Proof.
+  intros H. unfold emits_ok. rewrite Forall_map. eapply Forall_impl; [|exact H].
+  intros d Hd. apply emit_dmsg_ok. exact Hd.
+Qed.
+
 Section Peer.
   Variable machine_id : bytes.
-  Lemma peer_filter_ok c m tr v :
-    peer_filter machine_id c m = Some tr ->
-    walk false v (Some (c, m)) tr /\ (forall k, fold_left view_step tr v k = v k) /\ issued tr = [].
+  Lemma peer_filter_ok c m tr v lg :
+    peer_filter machine_id c m = Some tr -> emits_ok v (Some (c, m)) lg tr.
   Proof.
     unfold peer_filter. destruct (str_field m F_DESTINATION) eqn:D; [discriminate|].
     destruct (opt_is (str_field m F_INTERFACE) peer_iface) eqn:I; cbn [negb]; [|discriminate].
     apply opt_is_true in I.
     destruct (is_call m peer_iface mem_ping); [|destruct (is_call m peer_iface mem_getmid)];
-      intros H; injection H; intros <-; cbn [walk fold_left view_step issued flat_map app]; (split; [|split; auto]); split; auto.
+      intros H; injection H; intros <-; (constructor; [|constructor]).
     - apply emit_local; auto using new_method_return_wf, method_return_no_sender, method_return_serial.
     - apply emit_local; auto using new_method_return_wf, method_return_no_sender, method_return_serial.
     - apply emit_local; auto using new_error_wf, error_no_sender, error_serial.
@@ -241,15 +261,21 @@ End Peer.
 (* ---------------- the invariant ------------------------------------------------------------------ *)
 Definition name_k (k : nat) : bytes := unique_name 1 (Z.of_nat k).
 
-Record Inv (b : bus) (v : conn -> cstatus) (iss : list bytes) : Prop := mkInv {
+(* a kept message is a stamped copy of something its writer wrote under the recorded name *)
+Definition held_ok (lg : list (conn * bytes * smsg)) (h : held) : Prop :=
+  wf_fields (s_fields (h_msg h)) /\ sender_is (h_msg h) (h_sender h) /\
+  exists m0, In (h_conn h, h_sender h, m0) lg /\ same_content m0 (h_msg h).
+
+Record Inv (b : bus) (v : conn -> cstatus) (iss : list bytes) (lg : list (conn * bytes * smsg)) : Prop := mkInv {
   inv_view : forall c, v c = cst (lookup c (b_conns b));            (* who is who = BusConnectionData.name *)
   inv_ctr : counters_ok (b_major b) (b_minor b);
   inv_max : (b_minor b <= INT_MAX)%Z;
   inv_iss : iss = map name_k (seq 0 (Z.to_nat (b_minor b)));        (* names issued so far: :1.0 ... :1.(minor-1) *)
-  inv_reg : forall n, In n (b_reg b) -> In n iss                    (* registered ':'-names were all issued *)
+  inv_reg : forall n, In n (b_reg b) -> In n iss;                   (* registered ':'-names were all issued *)
+  inv_held : Forall (held_ok lg) (b_held b)
 }.
 
-Lemma Inv_init : Inv bus0 (fun _ => CAbsent) [].
+Lemma Inv_init : Inv bus0 (fun _ => CAbsent) [] [].
 Proof.
   constructor.
   - intros c. reflexivity.
@@ -257,33 +283,48 @@ Proof.
   - cbn. unfold INT_MAX. lia.
   - reflexivity.
   - intros n [].
+  - constructor.
 Qed.
 
-Lemma Inv_same b v iss v' iss' :
-  Inv b v iss -> (forall k, v' k = v k) -> iss' = iss -> Inv b v' iss'.
-Proof. intros [A B C D E] Hv ->. constructor; auto. intros c. rewrite Hv. apply A. Qed.
+Lemma held_ok_log lg lg' h : (forall x, In x lg -> In x lg') -> held_ok lg h -> held_ok lg' h.
+Proof. intros H (A & B & m0 & C & D). unfold held_ok. split; [exact A|]. split; [exact B|]. exists m0. auto. Qed.
 
-Lemma minor_nonneg b v iss : Inv b v iss -> (0 <= b_minor b)%Z.
-Proof. intros I. destruct (inv_ctr _ _ _ I) as [[_ ->]|[_ H]]; lia. Qed.
-
-Lemma reg_minted b v iss n :
-  Inv b v iss -> In n (b_reg b) -> exists k, (0 <= k < b_minor b)%Z /\ n = unique_name 1 k.
+Lemma Inv_same b v iss lg v' iss' lg' :
+  Inv b v iss lg -> (forall k, v' k = v k) -> iss' = iss -> (forall x, In x lg -> In x lg') -> Inv b v' iss' lg'.
 Proof.
-  intros I H. apply (inv_reg _ _ _ I) in H. rewrite (inv_iss _ _ _ I) in H. apply in_map_iff in H.
+  intros [A B C D E F] Hv -> Hl. constructor; auto.
+  - intros c. rewrite Hv. apply A.
+  - eapply Forall_impl; [|exact F]. intros h. apply held_ok_log. exact Hl.
+Qed.
+
+Lemma minor_nonneg b v iss lg : Inv b v iss lg -> (0 <= b_minor b)%Z.
+Proof. intros I. destruct (inv_ctr _ _ _ _ I) as [[_ ->]|[_ H]]; lia. Qed.
+
+Lemma reg_minted b v iss lg n :
+  Inv b v iss lg -> In n (b_reg b) -> exists k, (0 <= k < b_minor b)%Z /\ n = unique_name 1 k.
+Proof.
+  intros I H. apply (inv_reg _ _ _ _ I) in H. rewrite (inv_iss _ _ _ _ I) in H. apply in_map_iff in H.
   destruct H as (k & <- & Hk). apply in_seq in Hk. exists (Z.of_nat k). split; [|reflexivity].
-  pose proof (minor_nonneg _ _ _ I). lia.
+  pose proof (minor_nonneg _ _ _ _ I). lia.
 Qed.
 
 Lemma cst_unnamed o : cst o = CUnnamed -> o = Some None.
 Proof. destruct o as [[?|]|]; cbn; congruence. Qed.
 
 (* state changes that only touch the connection table *)
-Lemma Inv_remove b v iss c :
-  Inv b v iss ->
-  Inv (mkBus (b_major b) (b_minor b) (remove_conn c (b_conns b)) (b_reg b)) (upd v c CAbsent) iss.
+Lemma Inv_remove b v iss lg c :
+  Inv b v iss lg -> Inv (set_conns b (remove_conn c (b_conns b))) (upd v c CAbsent) iss lg.
 Proof.
-  intros [A B C D E]. constructor; cbn [b_major b_minor b_conns b_reg]; auto.
+  intros [A B C D E F]. constructor; cbn [set_conns b_major b_minor b_conns b_reg b_held]; auto.
   intros k. unfold upd. rewrite lookup_remove. destruct (k =? c); [reflexivity | apply A].
+Qed.
+
+(* a kept message whose writer is still there *)
+Lemma still_there_named b v iss lg h :
+  Inv b v iss lg -> still_there b h = true -> v (h_conn h) = CNamed (h_sender h).
+Proof.
+  intros I S. unfold still_there, name_of in S. rewrite (inv_view _ _ _ _ I).
+  destruct (lookup (h_conn h) (b_conns b)) as [[n|]|]; try discriminate. apply bytes_eqb_eq in S. subst n. reflexivity.
 Qed.
 
 Section Steps.
@@ -293,202 +334,242 @@ Section Steps.
   Variable driver : bus -> conn -> smsg -> list dmsg.
   Variable reads_args : bus -> conn -> smsg -> bool.
   Variable on_disconnect : bus -> conn -> list dmsg.
+  Variable activatable : bytes -> bool.
+  Variable granted : bus -> conn -> bytes -> bool.
   (* the rest of the driver builds its messages through the message API: defined fields, none twice *)
   Hypothesis driver_wf : forall b c m, Forall dmsg_wf (driver b c m).
   Hypothesis disc_wf : forall b c, Forall dmsg_wf (on_disconnect b c).
 
-  Notation step' := (step max_completed machine_id send_allowed driver reads_args on_disconnect).
-  Notation dispatch' := (dispatch max_completed machine_id send_allowed driver reads_args).
-  Notation run' := (run max_completed machine_id send_allowed driver reads_args on_disconnect).
+  Notation step' := (step max_completed machine_id send_allowed driver reads_args on_disconnect activatable granted).
+  Notation dispatch' := (dispatch max_completed machine_id send_allowed driver reads_args activatable granted).
+  Notation run' := (run max_completed machine_id send_allowed driver reads_args on_disconnect activatable granted).
 
   (* what a step must establish *)
-  Definition post (b : bus) (v : conn -> cstatus) (iss : list bytes) (last : option (conn * smsg)) (sends : Z) (o : outcome) : Prop :=
+  Definition post (b : bus) (v : conn -> cstatus) (iss : list bytes) (last : option (conn * smsg))
+             (lg : list (conn * bytes * smsg)) (sends : Z) (o : outcome) : Prop :=
     match o with
     | Ok b' tr =>
-        walk false v last tr /\ Inv b' (fold_left view_step tr v) (iss ++ issued tr) /\
+        walk false v last lg tr /\ Inv b' (fold_left view_step tr v) (iss ++ issued tr) (lg ++ wrote_from v tr) /\
         (b_minor b <= b_minor b' <= b_minor b + sends)%Z
     | Fault _ => (b_minor b = INT_MAX /\ sends = 1)%Z
     | Ill => True
     end.
 
-  Lemma post_keep b v iss last sends tr :
-    Inv b v iss -> (0 <= sends)%Z -> walk false v last tr -> (forall k, fold_left view_step tr v k = v k) -> issued tr = [] ->
-    post b v iss last sends (Ok b tr).
+  (* emissions only, and a new state that differs at most in what is kept / owned *)
+  Lemma post_emits b b' v iss last lg tr :
+    Inv b v iss lg -> emits_ok v last lg tr ->
+    b_major b' = b_major b -> b_minor b' = b_minor b -> b_conns b' = b_conns b -> b_reg b' = b_reg b ->
+    Forall (held_ok lg) (b_held b') ->
+    post b v iss last lg 1 (Ok b' tr).
   Proof.
-    intros I S W F Z. cbn. split; [exact W|]. split; [|lia].
-    eapply Inv_same; [exact I | exact F | rewrite Z; apply app_nil_r].
+    intros I E E1 E2 E3 E4 H. destruct (emits_walk _ _ _ _ E) as (A & B & C & D). cbn [post].
+    split; [exact A|]. rewrite C, D, !app_nil_r. split; [|lia].
+    destruct I as [I1 I2 I3 I4 I5 I6]. constructor; rewrite ?E1, ?E2, ?E3, ?E4; auto.
+    intros c. rewrite B. apply I1.
   Qed.
 
+  Lemma post_same b v iss last lg tr : Inv b v iss lg -> emits_ok v last lg tr -> post b v iss last lg 1 (Ok b tr).
+  Proof. intros I E. apply post_emits; auto. apply (inv_held _ _ _ _ I). Qed.
+
   (* bus_driver_handle_hello *)
-  Lemma do_hello_ok b c m0 v iss :
-    Inv b v iss -> v c = CUnnamed -> wire_ok m0 ->
-    post b v iss (Some (c, m0)) 1 (do_hello max_completed b c (stamp not_active m0)).
+  Lemma do_hello_ok b c m0 v iss lg :
+    Inv b v iss lg -> v c = CUnnamed -> wire_ok m0 ->
+    post b v iss (Some (c, m0)) lg 1 (do_hello max_completed b c (stamp not_active m0)).
   Proof.
     intros I V W. unfold do_hello.
     pose proof (stamp_wf not_active m0 W) as Wf.
-    assert (Cap : emit_ok false v (Some (c, m0)) (OClient c) SMonitors (stamp not_active m0)).
+    assert (Cap : emit_ok false v (Some (c, m0)) lg (OClient c) SMonitors (stamp not_active m0)).
     { apply emit_client_unnamed; auto using stamp_sender, stamp_same_content. }
     destruct (max_completed <=? n_completed b).
-    - apply post_keep; auto; [lia|]. cbn [walk]. split; [exact Cap|]. split; [|exact Logic.I].
-      cbn [view_step last_step]. apply error_reply_ok.
-    - pose proof (minor_nonneg _ _ _ I) as Nn. pose proof (inv_max _ _ _ I) as Mx.
+    - apply post_same; auto. constructor; [exact Cap|]. constructor; [apply error_reply_ok | constructor].
+    - pose proof (minor_nonneg _ _ _ _ I) as Nn. pose proof (inv_max _ _ _ _ I) as Mx.
       destruct (Z.eq_dec (b_minor b) INT_MAX) as [E|E].
-      + destruct (inv_ctr _ _ _ I) as [[_ Z0]|[M1 _]]; [unfold INT_MAX in E; lia|].
+      + destruct (inv_ctr _ _ _ _ I) as [[_ Z0]|[M1 _]]; [unfold INT_MAX in E; lia|].
         rewrite M1. rewrite E at 1. cbn [mint]. cbn. split; [exact E | reflexivity].
       + rewrite (mint_fresh (length (b_reg b)) (b_reg b) (b_major b) (b_minor b));
-          [| exact (inv_ctr _ _ _ I) | lia | intros n Hn; eapply reg_minted; eauto].
+          [| exact (inv_ctr _ _ _ _ I) | lia | intros n Hn; eapply reg_minted; eauto].
         set (name := unique_name 1 (b_minor b)).
-        set (b' := mkBus 1 (b_minor b + 1) (set_name c name (b_conns b)) (name :: b_reg b)).
+        set (b' := mkBus 1 (b_minor b + 1) (set_name c name (b_conns b)) (name :: b_reg b) (b_owned b) (b_held b)).
         set (m' := set_sender (stamp not_active m0) name).
         assert (Wm' : wf_fields (s_fields m')) by (apply set_sender_wf; exact Wf).
         assert (V1 : upd v c (CNamed name) c = CNamed name) by (unfold upd; rewrite N.eqb_refl; reflexivity).
-        assert (Em' : forall s, emit_ok false (upd v c (CNamed name)) (Some (c, m0)) (OClient c) s m').
-        { intros s. apply (emit_client_named false _ c m0 name s m' V1 Wm').
+        assert (Em' : forall s lg', plain s -> emit_ok false (upd v c (CNamed name)) (Some (c, m0)) lg' (OClient c) s m').
+        { intros s lg' P. apply (emit_client_named false _ lg' c m0 name s m' P V1 Wm').
           - apply set_sender_is. apply Wf.
           - apply same_content_restamp. apply stamp_same_content. }
-        cbn [post walk view_step last_step fold_left issued flat_map app emit_dmsg noc].
+        cbn [post walk view_step last_step fold_left issued flat_map app emit_dmsg noc log_new wrote_from].
+        rewrite !app_nil_r.
         split; [|split].
-        * split; [exact V|]. split; [apply Em'|].
+        * split; [exact V|]. split; [apply Em'; exact Logic.I|].
           split; [apply emit_driver; [apply from_driver_wf | apply from_driver_sender]; apply new_method_return_wf|].
           split; [apply emit_driver; [apply new_driver_signal_wf; repeat constructor; unfold F_SENDER; lia | reflexivity]|].
           split; [apply emit_driver; [apply from_driver_wf | apply from_driver_sender];
                   apply new_driver_signal_wf; repeat constructor; unfold F_DESTINATION; lia|].
-          split; [apply Em' | exact Logic.I].
-        * unfold b'. constructor; cbn [b_major b_minor b_conns b_reg].
-          -- intros k. unfold upd. rewrite lookup_set_name. destruct (k =? c); [|apply (inv_view _ _ _ I)].
-             rewrite (inv_view _ _ _ I) in V. apply cst_unnamed in V. rewrite V. reflexivity.
+          split; [apply Em'; exact Logic.I | exact Logic.I].
+        * unfold b'. constructor; cbn [b_major b_minor b_conns b_reg b_held].
+          -- intros k. unfold upd. rewrite lookup_set_name. destruct (k =? c); [|apply (inv_view _ _ _ _ I)].
+             rewrite (inv_view _ _ _ _ I) in V. apply cst_unnamed in V. rewrite V. reflexivity.
           -- right. lia.
           -- lia.
-          -- rewrite (inv_iss _ _ _ I). replace (Z.to_nat (b_minor b + 1)) with (S (Z.to_nat (b_minor b))) by lia.
+          -- rewrite (inv_iss _ _ _ _ I). replace (Z.to_nat (b_minor b + 1)) with (S (Z.to_nat (b_minor b))) by lia.
              rewrite seq_S, map_app. cbn [map plus]. unfold name_k at 3. rewrite Z2Nat.id by lia. reflexivity.
-          -- intros n [<-|Hn]; apply in_or_app; [right; left; reflexivity | left; exact (inv_reg _ _ _ I n Hn)].
+          -- intros n [<-|Hn]; apply in_or_app; [right; left; reflexivity | left; exact (inv_reg _ _ _ _ I n Hn)].
+          -- exact (inv_held _ _ _ _ I).
         * unfold b'. cbn [b_minor]. lia.
   Qed.
 
-  (* traces that consist of emissions only *)
-  Definition emits_ok (v : conn -> cstatus) (last : option (conn * smsg)) (tr : list item) : Prop :=
-    Forall (fun i => match i with TEmit o s m' => emit_ok false v last o s m' | _ => False end) tr.
-
-  Lemma emits_walk v last tr :
-    emits_ok v last tr ->
-    walk false v last tr /\ (forall k, fold_left view_step tr v k = v k) /\ issued tr = [].
-  Proof.
-    induction 1 as [|i r Hi Hr IH]; cbn [walk fold_left issued flat_map]; [auto|].
-    destruct i; try contradiction. cbn [view_step last_step app]. tauto.
-  Qed.
-
-  Lemma emits_dmsgs b v last ds : Forall dmsg_wf ds -> emits_ok v last (map (emit_dmsg b) ds).
-  Proof.
-    intros H. unfold emits_ok. rewrite Forall_map. eapply Forall_impl; [|exact H].
-    intros d Hd. apply emit_dmsg_ok. exact Hd.
-  Qed.
-
-  Lemma post_emits b v iss last tr :
-    Inv b v iss -> emits_ok v last tr -> post b v iss last 1 (Ok b tr).
-  Proof.
-    intros I E. destruct (emits_walk _ _ _ E) as (A & B & C). apply post_keep; auto. lia.
-  Qed.
-
   (* "clients must talk to bus driver first": captured under the placeholder, then closed *)
-  Lemma post_close b v iss c m :
-    Inv b v iss -> v c = CUnnamed -> wire_ok m ->
-    post b v iss (Some (c, m)) 1
-      (Ok (mkBus (b_major b) (b_minor b) (remove_conn c (b_conns b)) (b_reg b))
-          [TEmit (OClient c) SMonitors (stamp not_active m); TGone c]).
+  Lemma post_close b v iss lg c m :
+    Inv b v iss lg -> v c = CUnnamed -> wire_ok m ->
+    post b v iss (Some (c, m)) lg 1
+      (Ok (set_conns b (remove_conn c (b_conns b))) [TEmit (OClient c) SMonitors (stamp not_active m); TGone c]).
   Proof.
-    intros I V W. cbn [post walk view_step last_step fold_left issued flat_map app b_minor]. split; [|split; [|lia]].
+    intros I V W. cbn [post walk view_step last_step fold_left issued flat_map app b_minor set_conns log_new wrote_from].
+    rewrite !app_nil_r. split; [|split; [|lia]].
     - split; [|auto]. apply emit_client_unnamed; auto using stamp_wf, stamp_sender, stamp_same_content.
-    - rewrite app_nil_r. apply Inv_remove. exact I.
+    - apply Inv_remove. exact I.
   Qed.
 
-  Lemma dispatch_ok b c cname m v iss :
-    Inv b v iss -> lookup c (b_conns b) = Some cname -> wire_ok m ->
-    post b v iss (Some (c, m)) 1 (dispatch' b c cname m).
+  (* bus_activation_send_pending_auto_activation_messages / try_send_activation_failure *)
+  Lemma release_ok b v iss lg last name :
+    Inv b v iss lg -> emits_ok v last lg (release driver b name).
   Proof.
-    intros I L W. unfold dispatch.
+    intros I. unfold release, emits_ok. pose proof (inv_held _ _ _ _ I) as H.
+    induction H as [|h r Hh Hr IH]; cbn [flat_map]; [constructor|]. apply Forall_app. split; [|exact IH].
+    destruct (bytes_eqb (h_name h) name); cbn [andb]; [|constructor].
+    destruct (still_there b h) eqn:S; [|constructor].
+    destruct Hh as (W & Sd & m0 & L & C). constructor.
+    - eapply emit_released; eauto. eapply still_there_named; eauto.
+    - apply emits_dmsgs. apply driver_wf.
+  Qed.
+
+  Lemma fail_all_ok b v lg last name ename :
+    emits_ok v last lg (fail_all b name ename).
+  Proof.
+    unfold fail_all, emits_ok. induction (b_held b) as [|h r IH]; cbn [flat_map]; [constructor|].
+    apply Forall_app. split; [|exact IH].
+    destruct (bytes_eqb (h_name h) name && still_there b h); [|constructor].
+    constructor; [apply error_reply_ok | constructor].
+  Qed.
+
+  Lemma dispatch_ok b c cname m v iss lg :
+    Inv b v iss lg -> lookup c (b_conns b) = Some cname -> wire_ok m ->
+    (forall n, cname = Some n -> In (c, n, m) lg) ->
+    post b v iss (Some (c, m)) lg 1 (dispatch' b c cname m).
+  Proof.
+    intros I L W Lg. unfold dispatch.
     destruct (peer_filter machine_id c m) as [tr|] eqn:PF.
-    { destruct (peer_filter_ok _ _ _ _ v PF) as (A & B & C). apply post_keep; auto. lia. }
-    assert (Vc : v c = cst (Some cname)) by (rewrite (inv_view _ _ _ I), L; reflexivity).
-    assert (Named : forall n s, cname = Some n -> emit_ok false v (Some (c, m)) (OClient c) s (stamp n m)).
-    { intros n s ->. apply emit_client_named with (n := n); auto using stamp_wf, stamp_sender, stamp_same_content. }
-    assert (Cap0 : cname = None -> emit_ok false v (Some (c, m)) (OClient c) SMonitors (stamp not_active m)).
+    { apply post_same; auto. eapply peer_filter_ok. exact PF. }
+    assert (Vc : v c = cst (Some cname)) by (rewrite (inv_view _ _ _ _ I), L; reflexivity).
+    assert (Named : forall n s, plain s -> cname = Some n -> emit_ok false v (Some (c, m)) lg (OClient c) s (stamp n m)).
+    { intros n s P ->. apply emit_client_named with (n := n); auto using stamp_wf, stamp_sender, stamp_same_content. }
+    assert (Cap0 : cname = None -> emit_ok false v (Some (c, m)) lg (OClient c) SMonitors (stamp not_active m)).
     { intros ->. apply emit_client_unnamed; auto using stamp_wf, stamp_sender, stamp_same_content. }
     destruct (str_field (scrub m) F_DESTINATION) as [d|] eqn:D.
     - (* addressed *)
       destruct (bytes_eqb d drv_name).
       + (* to the driver *)
         destruct cname as [n|].
-        * assert (Cap : forall s, emit_ok false v (Some (c, m)) (OClient c) s (stamp n m)) by (intros s; apply Named; reflexivity).
+        * assert (Cap : forall s, plain s -> emit_ok false v (Some (c, m)) lg (OClient c) s (stamp n m)) by (intros s P; apply Named; auto).
           destruct (send_allowed b c (set_sender (scrub m) n)); cbn [negb].
-          2:{ apply post_emits; auto. constructor; [apply Cap | constructor; [apply error_reply_ok | constructor]]. }
+          2:{ apply post_same; auto. constructor; [apply Cap; exact Logic.I | constructor; [apply error_reply_ok | constructor]]. }
           destruct (is_call (set_sender (scrub m) n) drv_name mem_hello).
-          { apply post_emits; auto. constructor; [apply Cap | constructor; [apply error_reply_ok | constructor]]. }
-          apply post_emits; auto. constructor.
-          { destruct (reads_args b c (set_sender (scrub m) n)); [|apply Cap].
+          { apply post_same; auto. constructor; [apply Cap; exact Logic.I | constructor; [apply error_reply_ok | constructor]]. }
+          assert (Cap3 : forall s, plain s ->
+                    emit_ok false v (Some (c, m)) lg (OClient c) s
+                      (if reads_args b c (set_sender (scrub m) n) then to_native (set_sender (scrub m) n) else set_sender (scrub m) n)).
+          { intros s P. destruct (reads_args b c (set_sender (scrub m) n)); [|apply Cap; exact P].
             apply emit_client_named with (n := n); auto.
             - rewrite to_native_fields. apply stamp_wf. exact W.
             - apply sender_is_native. apply stamp_sender. exact W.
             - apply same_content_native. apply stamp_same_content. }
-          apply Forall_app. split; [apply emits_dmsgs; apply driver_wf|]. constructor; [|constructor].
-          destruct (reads_args b c (set_sender (scrub m) n)); [|apply Cap].
-          apply emit_client_named with (n := n); auto.
-          -- rewrite to_native_fields. apply stamp_wf. exact W.
-          -- apply sender_is_native. apply stamp_sender. exact W.
-          -- apply same_content_native. apply stamp_same_content.
+          assert (Plain : emits_ok v (Some (c, m)) lg
+                    (TEmit (OClient c) SMonitors (if reads_args b c (set_sender (scrub m) n) then to_native (set_sender (scrub m) n) else set_sender (scrub m) n)
+                     :: map (emit_dmsg b) (driver b c (set_sender (scrub m) n)) ++
+                     [TEmit (OClient c) (SMatches c) (if reads_args b c (set_sender (scrub m) n) then to_native (set_sender (scrub m) n) else set_sender (scrub m) n)])).
+          { constructor; [apply Cap3; exact Logic.I|]. apply Forall_app. split; [apply emits_dmsgs; apply driver_wf|].
+            constructor; [apply Cap3; exact Logic.I | constructor]. }
+          destruct (request_name_of (set_sender (scrub m) n)) as [name|]; [|apply post_same; auto].
+          destruct (granted b c name); [|apply post_same; auto].
+          apply post_emits; auto.
+          -- constructor; [apply Cap3; exact Logic.I|]. apply Forall_app. split; [apply emits_dmsgs; apply driver_wf|].
+             apply Forall_app. split; [eapply release_ok; eauto|]. constructor; [apply Cap3; exact Logic.I | constructor].
+          -- cbn [b_held]. pose proof (inv_held _ _ _ _ I) as H. clear - H. induction H as [|h r Hh Hr IH]; cbn [filter]; [constructor|].
+             destruct (negb (bytes_eqb (h_name h) name)); [constructor|]; auto.
         * destruct (is_call (set_sender (scrub m) not_active) drv_name mem_hello); cbn [negb].
-          2:{ apply post_emits; auto. constructor; [apply Cap0; reflexivity | constructor; [apply error_reply_ok | constructor]]. }
+          2:{ apply post_same; auto. constructor; [apply Cap0; reflexivity | constructor; [apply error_reply_ok | constructor]]. }
           destruct (bytes_eqb (s_sig (set_sender (scrub m) not_active)) []); cbn [negb].
-          2:{ apply post_emits; auto. constructor; [apply Cap0; reflexivity | constructor; [apply error_reply_ok | constructor]]. }
-          apply (do_hello_ok b c m v iss); auto.
+          2:{ apply post_same; auto. constructor; [apply Cap0; reflexivity | constructor; [apply error_reply_ok | constructor]]. }
+          apply (do_hello_ok b c m v iss lg); auto.
       + destruct cname as [n|].
-        * apply post_emits; auto. constructor; [apply Named; reflexivity|]. apply emits_dmsgs. apply driver_wf.
-        * apply (post_close b v iss c m); auto.
+        * destruct (negb (is_owned b d) && negb (N.testbit (s_flags (set_sender (scrub m) n)) 1) && activatable d).
+          -- (* kept for the service being started *)
+             apply post_emits; auto.
+             ++ constructor; [apply Named; [exact Logic.I | reflexivity]|]. apply emits_dmsgs. apply driver_wf.
+             ++ cbn [set_held b_held]. apply Forall_app. split; [exact (inv_held _ _ _ _ I)|]. constructor; [|constructor].
+                unfold held_ok. cbn [h_msg h_sender h_conn]. split; [apply stamp_wf; exact W|]. split; [apply stamp_sender; exact W|].
+                exists m. split; [apply Lg; reflexivity | apply stamp_same_content].
+          -- apply post_same; auto. constructor; [apply Named; [exact Logic.I | reflexivity]|]. apply emits_dmsgs. apply driver_wf.
+        * apply (post_close b v iss lg c m); auto.
     - (* no destination *)
       assert (D0 : str_field m F_DESTINATION = None) by (rewrite <- D; symmetry; apply str_field_scrub; unfold F_DESTINATION; lia).
       destruct (s_type (scrub m) =? 4) eqn:T4; cbn [negb].
       + destruct cname as [n|].
-        * apply post_emits; auto. constructor; [apply Named; reflexivity|]. apply emits_dmsgs. apply driver_wf.
-        * apply (post_close b v iss c m); auto.
+        * apply post_same; auto. constructor; [apply Named; [exact Logic.I | reflexivity]|]. apply emits_dmsgs. apply driver_wf.
+        * apply (post_close b v iss lg c m); auto.
       + destruct (N.eqb_spec (s_type (scrub m)) 1) as [T1|T1].
-        * apply post_emits; auto. constructor; [|constructor].
+        * apply post_same; auto. constructor; [|constructor].
           apply emit_local; [exact D0 | left; exact T1 | apply new_error_wf | apply error_no_sender
                             | exact (error_serial (scrub m) _ _) | right; reflexivity].
-        * apply post_emits; auto. constructor.
+        * apply post_same; auto. constructor.
   Qed.
 
   (* ---------------- one event ------------------------------------------------------------------ *)
   Definition event_ok (e : event) : Prop := match e with ESend _ m => wire_ok m | _ => True end.
   Definition sends_of (e : event) : Z := match e with ESend _ _ => 1%Z | _ => 0%Z end.
 
-  Lemma step_ok b e v iss last :
-    Inv b v iss -> event_ok e -> post b v iss last (sends_of e) (step' b e).
+  Lemma step_ok b e v iss last lg :
+    Inv b v iss lg -> event_ok e -> post b v iss last lg (sends_of e) (step' b e).
   Proof.
-    intros I E. destruct e as [c|c m|c]; cbn [step sends_of].
+    intros I E. destruct e as [c|c m|c|name ename]; cbn [step sends_of].
     - (* connect *)
       destruct (lookup c (b_conns b)) eqn:L; [exact Logic.I|].
-      cbn [post walk view_step last_step fold_left issued flat_map app b_minor]. split; [auto|]. split; [|lia].
-      rewrite app_nil_r. destruct I as [A B C D F]. constructor; cbn [b_major b_minor b_conns b_reg]; auto.
+      cbn [post walk view_step last_step fold_left issued flat_map app b_minor set_conns log_new wrote_from]. split; [auto|]. split; [|lia].
+      rewrite !app_nil_r. destruct I as [A B C D F G]. constructor; cbn [set_conns b_major b_minor b_conns b_reg b_held]; auto.
       intros k. unfold upd. cbn [lookup]. rewrite (N.eqb_sym c k). destruct (k =? c); [reflexivity | apply A].
     - (* a message *)
       destruct (lookup c (b_conns b)) as [cname|] eqn:L; [|exact Logic.I].
-      pose proof (dispatch_ok b c cname m v iss I L E) as P.
+      assert (Vc : v c = cst (Some cname)) by (rewrite (inv_view _ _ _ _ I), L; reflexivity).
+      assert (I' : Inv b v iss (lg ++ log_new v (TRecv c m))).
+      { eapply Inv_same; eauto. intros x Hx. apply in_or_app. left. exact Hx. }
+      assert (Lg : forall n, cname = Some n -> In (c, n, m) (lg ++ log_new v (TRecv c m))).
+      { intros n ->. apply in_or_app. right. cbn [log_new]. rewrite Vc. cbn. left. reflexivity. }
+      pose proof (dispatch_ok b c cname m v iss _ I' L E Lg) as P.
       destruct (dispatch' b c cname m) as [b' tr|f|]; cbn [post] in *; auto.
-      cbn [walk view_step last_step fold_left issued flat_map app]. tauto.
+      cbn [walk view_step last_step fold_left issued flat_map app]. rewrite wrote_from_cons. cbn [view_step].
+      rewrite app_assoc. tauto.
     - (* disconnect *)
       destruct (lookup c (b_conns b)) as [[n|]|] eqn:L; [| |exact Logic.I].
       + set (ds := map (emit_dmsg b) (on_disconnect b c)).
-        destruct (emits_walk v last ds (emits_dmsgs b v last _ (disc_wf b c))) as (W1 & F1 & I1).
+        destruct (emits_walk v last lg ds (emits_dmsgs b v last lg _ (disc_wf b c))) as (W1 & F1 & I1 & L1).
         cbn [post b_minor]. split; [|split; [|lia]].
         * apply walk_app. split; [exact W1|]. cbn [walk view_step last_step]. split; [|split; [|auto]].
           -- apply emit_driver; [apply from_driver_wf | apply from_driver_sender];
                apply new_driver_signal_wf; repeat constructor; unfold F_DESTINATION; lia.
           -- apply emit_driver; [apply new_driver_signal_wf; repeat constructor; unfold F_SENDER; lia | reflexivity].
-        * rewrite fold_left_app, issued_app, I1. cbn [fold_left view_step issued flat_map app noc]. rewrite app_nil_r.
-          destruct I as [A B C D F]. constructor; cbn [b_major b_minor b_conns b_reg]; auto.
+        * rewrite fold_left_app, issued_app, wrote_from_app, I1, L1.
+          cbn [fold_left view_step issued flat_map app noc wrote_from log_new]. rewrite !app_nil_r.
+          destruct I as [A B C D F G]. constructor; cbn [b_major b_minor b_conns b_reg b_held]; auto.
           -- intros k. unfold upd. rewrite lookup_remove. destruct (k =? c); [reflexivity|]. rewrite F1. apply A.
           -- intros x Hx. apply filter_In in Hx. apply F. tauto.
-      + cbn [post walk view_step last_step fold_left issued flat_map app b_minor]. split; [auto|]. split; [|lia].
-        rewrite app_nil_r. apply Inv_remove. exact I.
+      + cbn [post walk view_step last_step fold_left issued flat_map app b_minor set_conns log_new wrote_from]. split; [auto|]. split; [|lia].
+        rewrite !app_nil_r. apply Inv_remove. exact I.
+    - (* the started process failed *)
+      assert (P : post b v iss last lg 1 (Ok (set_held b (filter (fun h => negb (bytes_eqb (h_name h) name)) (b_held b))) (fail_all b name ename))).
+      { apply post_emits; auto; [apply fail_all_ok; auto|].
+        cbn [set_held b_held]. pose proof (inv_held _ _ _ _ I) as H. clear - H. induction H as [|h r Hh Hr IH]; cbn [filter]; [constructor|].
+        destruct (negb (bytes_eqb (h_name h) name)); [constructor|]; auto. }
+      cbn [post] in *. cbn [set_held b_minor] in *. intuition lia.
   Qed.
 
   (* ---------------- a whole history -------------------------------------------------------------- *)
@@ -497,25 +578,26 @@ Section Steps.
   Lemma sends_nonneg h : (0 <= sends h)%Z.
   Proof. induction h as [|e r IH]; cbn [sends]; [lia|]. destruct e; cbn [sends_of]; lia. Qed.
 
-  Lemma run_ok : forall h b v iss last tr f b',
-    Inv b v iss -> Forall event_ok h -> run' b h = (tr, f, b') ->
-    walk false v last tr /\ Inv b' (fold_left view_step tr v) (iss ++ issued tr) /\
+  Lemma run_ok : forall h b v iss last lg tr f b',
+    Inv b v iss lg -> Forall event_ok h -> run' b h = (tr, f, b') ->
+    walk false v last lg tr /\ Inv b' (fold_left view_step tr v) (iss ++ issued tr) (lg ++ wrote_from v tr) /\
     (f <> None -> (INT_MAX <= b_minor b + sends h)%Z).
   Proof.
-    induction h as [|e r IH]; intros b v iss last tr f b' I H R; cbn [run] in R.
-    - injection R; intros E1 E2 E3; subst tr f b'. cbn [walk fold_left issued flat_map]. rewrite app_nil_r. split; [exact Logic.I|]. split; [exact I|]. intros X. exfalso. apply X. reflexivity.
-    - inversion H as [|? ? He Hr]; subst. pose proof (step_ok b e v iss last I He) as P.
+    induction h as [|e r IH]; intros b v iss last lg tr f b' I H R; cbn [run] in R.
+    - injection R; intros E1 E2 E3; subst tr f b'. cbn [walk fold_left issued flat_map wrote_from]. rewrite !app_nil_r.
+      split; [exact Logic.I|]. split; [exact I|]. intros X. exfalso. apply X. reflexivity.
+    - inversion H as [|? ? He Hr]; subst. pose proof (step_ok b e v iss last lg I He) as P.
       pose proof (sends_nonneg r) as Sn.
       destruct (step' b e) as [b1 tr1|flt|].
       + destruct (run' b1 r) as [[tr2 f2] b2] eqn:R2. injection R; intros E1 E2 E3; subst tr f b'.
         cbn [post] in P. destruct P as (W1 & I1 & M1).
-        destruct (IH _ _ _ (fold_left last_step tr1 last) _ _ _ I1 Hr R2) as (W2 & I2 & F2).
+        destruct (IH _ _ _ (fold_left last_step tr1 last) _ _ _ _ I1 Hr R2) as (W2 & I2 & F2).
         split; [apply walk_app; split; assumption|]. split.
-        * rewrite fold_left_app, issued_app, app_assoc. exact I2.
+        * rewrite fold_left_app, issued_app, wrote_from_app, !app_assoc. exact I2.
         * intros Hf. specialize (F2 Hf). cbn [sends]. lia.
-      + injection R; intros E1 E2 E3; subst tr f b'. cbn [post] in P. cbn [walk fold_left issued flat_map]. rewrite app_nil_r.
+      + injection R; intros E1 E2 E3; subst tr f b'. cbn [post] in P. cbn [walk fold_left issued flat_map wrote_from]. rewrite !app_nil_r.
         split; [exact Logic.I|]. split; [exact I|]. intros _. cbn [sends]. lia.
-      + destruct (IH _ _ _ last _ _ _ I Hr R) as (W2 & I2 & F2). split; [exact W2|]. split; [exact I2|].
+      + destruct (IH _ _ _ last _ _ _ _ I Hr R) as (W2 & I2 & F2). split; [exact W2|]. split; [exact I2|].
         intros Hf. specialize (F2 Hf). cbn [sends]. destruct e; cbn [sends_of]; lia.
   Qed.
 
@@ -525,19 +607,19 @@ Section Steps.
 
   Lemma run_from_init h :
     Forall event_ok h ->
-    walk false (fun _ => CAbsent) None (trace_of h) /\
-    Inv (snd (run' bus0 h)) (view (trace_of h)) (issued (trace_of h)) /\
+    walk false (fun _ => CAbsent) None [] (trace_of h) /\
+    Inv (snd (run' bus0 h)) (view (trace_of h)) (issued (trace_of h)) (wrote (trace_of h)) /\
     (fault_of h <> None -> (INT_MAX <= sends h)%Z).
   Proof.
     intros H. unfold trace_of, fault_of. destruct (run' bus0 h) as [[tr f] b'] eqn:R.
-    destruct (run_ok h bus0 _ [] None tr f b' Inv_init H R) as (A & B & C). cbn [fst snd app] in *.
+    destruct (run_ok h bus0 _ [] None [] tr f b' Inv_init H R) as (A & B & C). cbn [fst snd app] in *.
     split; [exact A|]. split; [exact B|]. intros X. specialize (C X). cbn [b_minor bus0] in C. lia.
   Qed.
 
   Theorem sender_partial h : Forall event_ok h -> trace_ok false (trace_of h).
   Proof.
     intros H. destruct (run_from_init h H) as (W & _ & _). unfold trace_ok. intros pre o s m' post0 E.
-    rewrite E in W. exact (walk_at false pre _ _ (TEmit o s m') post0 W).
+    rewrite E in W. exact (walk_at false pre _ _ [] (TEmit o s m') post0 W).
   Qed.
 
   Lemma name_k_inj a b : name_k a = name_k b -> a = b.
@@ -546,7 +628,7 @@ Section Steps.
   Theorem names_exact h :
     Forall event_ok h -> issued (trace_of h) = map name_k (seq 0 (length (issued (trace_of h)))).
   Proof.
-    intros H. destruct (run_from_init h H) as (_ & I & _). pose proof (inv_iss _ _ _ I) as E.
+    intros H. destruct (run_from_init h H) as (_ & I & _). pose proof (inv_iss _ _ _ _ I) as E.
     rewrite E at 2. rewrite map_length, seq_length. exact E.
   Qed.
 
@@ -557,7 +639,7 @@ Section Steps.
     - rewrite E. apply FinFun.Injective_map_NoDup; [intros a b; apply name_k_inj | apply seq_NoDup].
     - rewrite E. apply Forall_forall. intros n Hn. apply in_map_iff in Hn. destruct Hn as (k & <- & _).
       apply unique_name_colon.
-    - intros pre c n post0 Et. rewrite Et in W. exact (walk_at false pre _ _ (TIssue c n) post0 W).
+    - intros pre c n post0 Et. rewrite Et in W. exact (walk_at false pre _ _ [] (TIssue c n) post0 W).
   Qed.
 
   Theorem no_fault_below_bound h :
@@ -582,5 +664,25 @@ Section Steps.
     destruct (send_allowed b c (stamp n m)); cbn [negb].
     - destruct (bytes_eqb (s_sig (stamp n m)) []); eexists; (split; [|reflexivity]); cbn; tauto.
     - eexists; (split; [|reflexivity]); cbn; tauto.
+  Qed.
+
+  (* a kept message is only ever dispatched for a writer that is still there under the same name,
+     and a failed start is only reported to such writers *)
+  Theorem release_only_live b name i :
+    In i (release driver b name) ->
+    match i with
+    | TEmit (OClient c) (SReleased c') m' => c' = c /\ exists h, In h (b_held b) /\ h_conn h = c /\ h_msg h = m' /\ name_of b c = Some (h_sender h)
+    | TEmit (OClient _) _ _ => False
+    | TEmit OLocal _ _ => False
+    | TEmit ODriver _ _ => True
+    | _ => False
+    end.
+  Proof using.
+    clear driver_wf disc_wf. unfold release. intros H. apply in_flat_map in H. destruct H as (h & Hh & Hi).
+    destruct (bytes_eqb (h_name h) name && still_there b h) eqn:S; [|destruct Hi].
+    apply andb_prop in S. destruct S as [_ S]. destruct Hi as [<-|Hi].
+    - split; [reflexivity|]. exists h. repeat split; auto. unfold still_there in S.
+      destruct (name_of b (h_conn h)); [|discriminate]. apply bytes_eqb_eq in S. congruence.
+    - apply in_map_iff in Hi. destruct Hi as (d & <- & _). destruct d; exact Logic.I.
   Qed.
 End Steps.
